@@ -32,7 +32,7 @@ Init0 == [tid |-> "none", line |-> 0, maxsize |-> 0, loading |-> 0, failing |-> 
           cur |-> [k \in KeyDom |-> NoCur], sec |-> [k \in KeyDom |-> NoSec], en |-> <<>>, call |-> NoCall,
           gen |-> 0, secGot |-> <<0, 0, 0>>, secDelByGet |-> FALSE, loaded |-> FALSE, loadv |-> 0, loadttl |-> 0,
           pendDemote |-> {}, lastfail |-> FALSE, final |-> FALSE, lastdl |-> 0, failedEnt |-> {}, taint |-> [k \in KeyDom |-> -1], kflost |-> {}, kflostD |-> {}, copied |-> <<>>,
-          closed |-> FALSE, viol |-> {}, traces |-> 0, gets |-> 0, demotions |-> 0, kfail |-> {}]
+          closed |-> FALSE, viol |-> {}, traces |-> 0, gets |-> 0, demotions |-> 0, kfail |-> {}, owedDel |-> {}]
 
 V(s, prop, kind) == IF Cardinality({x \in s.viol : x[1] = prop /\ x[4] = kind}) >= 25 THEN s ELSE [s EXCEPT !.viol = @ \cup {<<prop, s.tid, s.line, kind>>}]
 Vif(s, c, prop, kind) == IF c THEN V(s, prop, kind) ELSE s
@@ -163,7 +163,12 @@ Upd(s0, e) ==
                           ELSE [s EXCEPT !.copied = Put(s.copied, e.e, s.sec[En(s, e.e).k].v)]
     [] e.ev = "secdel" -> DoSecDel(s, e)
     [] e.ev = "mapremoved" -> DoMapRemoved(s, e)
-    [] e.ev = "settled" -> DoSettled(s, e)
+    \* C05 on the hybrid store: a Delete that took an entry out of the memory tier owes a REMOVED notification with
+    \* that entry's key and value; it has arrived once the write queue is drained
+    [] e.ev = "del" -> IF e.ok = 1 /\ e.e \in DOMAIN s.en THEN [s EXCEPT !.owedDel = @ \cup {<<e.k, s.en[e.e].v>>}] ELSE s
+    [] e.ev = "notify" -> IF e.reason = "REMOVED" THEN [s EXCEPT !.owedDel = @ \ {<<e.k, e.v>>}] ELSE s
+    [] e.ev = "settled" -> LET s1 == DoSettled(s, e) IN
+                           [Vif(s1, s.owedDel # {} /\ ~s.closed, "C05", "hybrid_delete_of_resident_entry_not_notified_after_settling") EXCEPT !.owedDel = {}]
     [] e.ev = "adv" -> [s EXCEPT !.now = e.t]
     [] e.ev = "final" -> [s EXCEPT !.final = TRUE]
     [] e.ev = "hang" -> V(s, "C10", "call_did_not_return_" \o e.op)
